@@ -172,8 +172,22 @@ def run_level(ctx, stop_first=False):
             solver = TDGLSolver(device=dev, options=opts, applied_vector_potential=A, terminal_currents=cfg["cur"])
             chi = solver.A_scale * (dev.mesh.sites @ np.array([cx, cy]))
             solver.psi_init = solver.psi_init * np.exp(1j * chi)
-            sol = solver.solve()
+            try:
+                sol = solver.solve()
+            except RuntimeError as e:  # a run that dies in one gauge
+                results.append(f"{type(e).__name__}: {str(e)[:140]}")
+                continue
             results.append(runs.parse_h5(sol.path)[0])
+        if isinstance(results[0], str):
+            raise V.Infra(f"C04 configuration {cfg} does not run in the reference gauge: {results[0]}")
+        raised = [(sh_, r_) for sh_, r_ in zip(shifts, results[1:]) if isinstance(r_, str)]
+        if raised:
+            tag = dict(device=cfg["dev"], bias=cfg["cur"] is not None, shift=list(raised[0][0]), error=raised[0][1])
+            ctx.fail("gauge-run-raises", f"the run works in the reference gauge but raises with the potential shifted by the constant {raised[0][0]}: {raised[0][1]}", tag)
+            first = first or dict(key="gauge-run-raises", what=raised[0][1], **tag)
+            if stop_first:
+                return first
+            continue
         base = results[0]
         for (cx, cy), other in zip(shifts, results[1:]):
             tag = dict(device=cfg["dev"], bias=cfg["cur"] is not None, shift=[cx, cy], time_dependent_field=bool(cfg.get("td")), terminal_psi=repr(cfg["opts"].get("terminal_psi", 0.0)))
